@@ -7,6 +7,8 @@ import (
 	"flag"
 	"fmt"
 	"go/ast"
+	"go/token"
+	"go/types"
 	"os"
 	"path/filepath"
 	"sort"
@@ -45,8 +47,17 @@ func main() {
 			for _, p := range m.Roots {
 				for _, f := range p.Syntax {
 					for _, d := range f.Decls {
+						if gd, ok := d.(*ast.GenDecl); ok && gd.Tok == token.TYPE {
+							for _, sp := range gd.Specs {
+								lines = append(lines, name+"\t"+m.Rel(p.PkgPath)+"\ttype "+sp.(*ast.TypeSpec).Name.Name)
+							}
+						}
 						if fd, ok := d.(*ast.FuncDecl); ok {
-							lines = append(lines, core.FuncKey(name, m.Rel(p.PkgPath), fd))
+							shape := ""
+							if fn, ok := p.TypesInfo.Defs[fd.Name].(*types.Func); ok {
+								shape = core.SigShape(fn)
+							}
+							lines = append(lines, core.FuncKey(name, m.Rel(p.PkgPath), fd)+"\t"+shape)
 						}
 					}
 				}
